@@ -187,7 +187,11 @@ impl Datastore for ClnDatastore {
                 ),
                 string: Some(info),
                 hex: None,
-                mode: Some(DatastoreMode::MUST_REPLACE),
+                // The attempt record may be missing if a crash or a failed
+                // write interrupted `add_payment_attempt` after it wrote the
+                // pending state. Don't require the record to exist, otherwise
+                // the payment could never be marked as failed again.
+                mode: Some(DatastoreMode::CREATE_OR_REPLACE),
                 generation: None,
             })
             .await?;
@@ -239,7 +243,8 @@ impl Datastore for ClnDatastore {
                 ),
                 string: Some(info),
                 hex: None,
-                mode: Some(DatastoreMode::MUST_REPLACE),
+                // See `mark_failed`: the attempt record may be missing.
+                mode: Some(DatastoreMode::CREATE_OR_REPLACE),
                 generation: None,
             })
             .await?;
